@@ -21,17 +21,21 @@
 
    Designs (constants):
      MapsLocked   the two maps are accessed under cm.mu (sync.RWMutex: readers share).  FALSE = the code
-                  before commit abe3a53 (proposed_fixes/C16-ingester-mgr-map-race.diff), TRUE = the code now.
-     SessLocked   state / report of a session are accessed under a per-session mutex.  FALSE = the code now:
-                  NoConflict is VIOLATED on `report` (Get reads what the session goroutine appends) and, with
-                  the closer, on `state` - the EXPECTED design counterexample that the -race child process of
-                  harness/drive/c07 reproduces on the real code; TRUE = proposed_fixes/C07-ingester-state-
-                  report-lock.diff: NoConflict holds.
+                  before commit abe3a53, TRUE = the code now.
+     SessLocked   state / report of a session are accessed under the per-session mutex (addReport / getReport /
+                  setState / getState).  TRUE = the code now (commit bff5ff9 = proposed_fixes/C07-ingester-state-
+                  report-lock.diff): NoConflict holds (spec/mc/IngestMgrImpl_code_*.cfg, expected ok).
+                  FALSE = the code before bff5ff9: NoConflict is VIOLATED on `report` (Get reads what the session
+                  goroutine appends) and, with the closer, on `state` - kept as DOCUMENTED design counterexamples
+                  (spec/mc/IngestMgrImpl_sess_cex*.cfg, expected violation); the overlap of the `report`
+                  counterexample is the one harness/drive/c07 forces through the gates ingest:sess_report /
+                  ingest:get_report in the -race child on every run.
      OldDelete    Delete reads ing.state before cancelling (the code before abe3a53).
-   Two further hazards of the older code are kept as expected counterexamples; they belong to C16 / C08, not
-   to C07: a Step call on a session whose goroutine has returned blocks for ever on the unbuffered trigger
-   channel (StepNotStuck; StepGuard = TRUE is the code since 23e3c73), and a Delete call that finds the id
-   in `ingesters` but not yet in `cancels` calls a nil function (NoNilCancel; NilGuard = TRUE = code now). *)
+   Further hazards of the older code are kept as documented counterexamples (IngestMgrImpl_old_cex_*.cfg); they
+   belong to C16 / C08, not to C07: the unsynchronised maps (MapsLocked = FALSE), a Step call on a session whose
+   goroutine has returned blocks for ever on the unbuffered trigger channel (StepNotStuck; StepGuard = TRUE is the
+   code since 23e3c73), and a Delete call that finds the id in `ingesters` but not yet in `cancels` calls a nil
+   function (NoNilCancel; NilGuard = TRUE = code now). *)
 EXTENDS Integers, Sequences, FiniteSets, TLC
 CONSTANTS Clients,    \* API client goroutines (strings)
           Ids,        \* session ids (strings, disjoint from Clients); also the session goroutines
